@@ -13,7 +13,7 @@ Viol(ev) ==
     \* every record sent in order is delivered (the replay filter must not drop fresh records)
     \cup (IF ev.case \in {"window", "reorder"} /\ ~ev.panic /\ ev.accepted # ev.sent THEN {"FreshAccepted"} ELSE {})
     \* the session stops sending before the counter can wrap
-    \cup (IF ev.case = "limit" /\ ~ev.panic /\ (ev.senderr = 0 \/ ev.maxnonce >= 4294967295) THEN {"NonceUnique"} ELSE {})
+    \cup (IF ev.case = "limit" /\ ~ev.panic /\ (ev.senderr = 0 \/ ev.headroom < 1) THEN {"NonceUnique"} ELSE {})
 TraceInit == l = 1
 TraceNext == /\ l <= Len(Log) /\ l' = l + 1
              /\ LET vs == Viol(Log[l]) IN (vs # {}) => PrintT(ToJson(<<"VIOL", l, Log[l].beh, vs>>))
